@@ -9,6 +9,7 @@
 Fail closed: a function whose body is not one of the recognised shapes raises Unsupported."""
 import ast
 import os
+import re
 
 from py2coq import Unsupported
 
@@ -151,6 +152,21 @@ def gen_xeval():
         gens.append((m.name, sorted(parts)))
     out.append("Definition axis_generators : list (str * list str) := [\n" +
                ";\n".join("  (%s, [%s])" % (_cstr(k), "; ".join(_cstr(p) for p in v)) for k, v in gens) + "].\n")
+    # ---- string -> number: the pattern of ast._to_number and what float() makes of the digits it admits
+    m = re.search(r'_match_number\s*=\s*re\.compile\(r"([^"]*)"\)\.fullmatch', _read("_delb/xpath/ast.py"))
+    if not m or m.group(1) != r"\s*-?(\d+(\.\d*)?|\.\d+)\s*":
+        raise Unsupported("ast._match_number is no longer the pattern \\s*-?(\\d+(\\.\\d*)?|\\.\\d+)\\s* without flags")
+    digits = []
+    rx = re.compile(r"\d")
+    for c in range(0x110000):
+        ch = chr(c)
+        if rx.fullmatch(ch):
+            v = float(ch)
+            if v != int(v) or not 0 <= v <= 9:
+                raise Unsupported("float(%r)" % ch)
+            digits.append((c, int(v)))
+    out.append("(* every character the regex class \\d admits in a str pattern, with the digit value float() gives it *)")
+    out.append("Definition unicode_digits : list (N * N) := [%s]%%N.\n" % "; ".join("(%d, %d)" % d for d in digits))
     return "\n".join(out)
 
 
